@@ -927,7 +927,9 @@ pub fn run(args: &Args) -> i32 {
                     let base = json!({"op": op, "case": format!("{}/{}/{}", op, pc, ci), "pc": pc,
                                       "ns": chunk.iter().map(dn).collect::<Vec<_>>(),
                                       "nx": chunk.iter().map(|n| format!("{:#x}", n)).collect::<Vec<_>>()});
-                    let r = guard(|| {
+                    // a square root that does not come back within 30 s (normal: microseconds) is an outcome
+                    let (chunk, pc) = (chunk.to_vec(), pc.clone());
+                    let r = guard_deadline(30.0, move || {
                         let rs: Vec<Value> = chunk.iter().map(|n| match pc.as_str() {
                             "arith64" => du(arith::isqrt(n.digits()[0])),
                             "squfof" => du(sqf::isqrt(n.digits()[0])),
